@@ -127,11 +127,14 @@ ORACLE_ONLY = {2: "UnboundedBlocking", 3: "UnboundedDropping"}
 def params_line(ex):
     b = ex.get("backend", {})
     q = ex.get("bounded", {})
-    return "params drain=%d invalidBits=%d refreshAfterSample=%d catchAll=%d batchPct=%d reportFlush=%d keepUnreported=%d flushInvalid=%d replayCatch=%d" % (
+    fl = ex.get("faults", {})   # w2_faults: structural facts of the fault machine (Backend/Fault.lean, FCfg)
+    return "params drain=%d invalidBits=%d refreshAfterSample=%d catchAll=%d batchPct=%d reportFlush=%d keepUnreported=%d flushInvalid=%d replayCatch=%d patInLoop=%d readAborts=%d notifyAlways=%d" % (
         1 if q.get("drainPublish", True) else 0, b.get("invalidBits", 32), 1 if b.get("refreshAfterSample", True) else 0,
         1 if b.get("catchAllFormat", True) else 0, q.get("defaultPercent", 5), 1 if b.get("reportBeforeFlushCleanup", True) else 0,
         1 if b.get("cleanupKeepsUnreported", True) else 0, 0 if b.get("flushOnlyValidLoggers", False) else 1,
-        1 if b.get("replayCatchesPerEvent", True) else 0)
+        1 if b.get("replayCatchesPerEvent", True) else 0,
+        1 if fl.get("overrideFormatterCreatedInsideSinkLoopAfterFilter", True) else 0, 1 if fl.get("readPassHasNoCatch", True) else 0,
+        1 if fl.get("processHandlersNotifyUnconditionally", True) else 0)
 
 
 def run_script(hbin, name, lines, workdir):
@@ -187,8 +190,13 @@ def classify(impl, model):
         props |= {"C08"}
     if "w:" in diff:
         props |= {"C03", "C05", "C16"}
-    if "wthrow" in diff or "fthrow" in diff or "n:wfail" in diff or "n:ffail" in diff or "n:nobt" in diff:
+    if "wthrow" in diff or "fthrow" in diff or "n:wfail" in diff or "n:ffail" in diff or "n:nobt" in diff or \
+            "n:empty" in diff or "n:unhandled" in diff or "n:patfail" in diff or "dthrow" in diff or "n:dfail" in diff:
         props |= {"C10"}
+    if "n:patfail" in diff:
+        props |= {"C16"}
+    if "dthrow" in diff or "n:dfail" in diff:
+        props |= {"C03", "C05"}
     if "fl:" in diff or "done" in diff:
         props |= {"C06"}
     if "contexts=" in diff:
@@ -610,6 +618,9 @@ def replay(prop, path):
         return reg_stream.replay(prop, path)
     lines = [l.rstrip("\n") for l in open(path) if l.strip() and not l.startswith("#")]
     v = 1 if re.search(r"\.v1\.|variant=1|v1_", path + " ".join(lines[:2])) else 0
+    _mv = re.search(r"\.v([23])\.|variant=([23])|case (?:corpus_\S*_)?v([23])_", path + " " + " ".join(open(path).read().split("\n")[:3]))
+    if _mv:
+        v = int(next(g for g in _mv.groups() if g))   # the unbounded builds (oracle only)
     ok, hbin, log = vlib.build_harness("h2_v%d" % v, ["h2_backend.cpp"], extra_flags=["-fno-access-control", "-DH2_VARIANT=%d" % v])
     if not ok:
         print(log)
